@@ -15,9 +15,20 @@ def showVal : Option Bytes → String
   | some [] => "="
   | some b => toHex b
 
-/-- key/bytes token: `=` = empty, else hex -/
+/-- run-length token `*<n>:<hh>`: n copies of one byte -/
+def parseRun (s : String) : Option Bytes :=
+  match (s.drop 1).toString.splitOn ":" with
+  | [n, h] => do
+    let k ← n.toNat?
+    let b ← fromHex h
+    match b with
+    | [c] => some (List.replicate k c)
+    | _ => none
+  | _ => none
+
+/-- key/bytes token: `=` = empty, `*n:hh` = run, else hex -/
 def parseBytes (s : String) : Option Bytes :=
-  if s == "=" || s == "-" then some [] else fromHex s
+  if s == "=" || s == "-" then some [] else if s.startsWith "*" then parseRun s else fromHex s
 
 def showBytes (b : Bytes) : String := if b.isEmpty then "=" else toHex b
 
